@@ -472,7 +472,8 @@ Definition dec_dct (d : dct) (s : dstate) : res (value * dstate) :=
   | ParamLen bt en hl key =>
     match lookup key (d_lkeys s) with
     | None => Err EOdx
-    | Some b => extract_atomic s b bt en hl
+    | Some b => do _ <- guard (0 <=? b) EDecode;   (* since the fix commit: a negative length is a decode error *)
+                extract_atomic s b bt en hl
     end
   end.
 
